@@ -6,7 +6,9 @@ import (
 	"io"
 	"net"
 	"sync"
+	"syscall"
 	"time"
+	"unsafe"
 )
 
 // Messages is the subset of socket.Messages the scripted peers need.
@@ -85,3 +87,27 @@ func (r *RawConn) ReadMessage(buf []byte) ([]byte, error) {
 
 // Close closes the connection.
 func (r *RawConn) Close() error { return r.c.Close() }
+
+// Queues reports the bytes this end has written that the peer has not read yet, and the bytes
+// waiting to be read by this end (development aid for stall diagnosis; -1 when unavailable).
+func (r *RawConn) Queues() (outq, inq int) {
+	outq, inq = -1, -1
+	sc, ok := r.c.(syscall.Conn)
+	if !ok {
+		return
+	}
+	raw, err := sc.SyscallConn()
+	if err != nil {
+		return
+	}
+	raw.Control(func(fd uintptr) {
+		var v int32
+		if _, _, e := syscall.Syscall(syscall.SYS_IOCTL, fd, 0x5411 /* TIOCOUTQ */, uintptr(unsafe.Pointer(&v))); e == 0 {
+			outq = int(v)
+		}
+		if _, _, e := syscall.Syscall(syscall.SYS_IOCTL, fd, 0x541B /* FIONREAD */, uintptr(unsafe.Pointer(&v))); e == 0 {
+			inq = int(v)
+		}
+	})
+	return
+}
